@@ -568,7 +568,10 @@ impl<'b, C> Decode<'b, C> for core::time::Duration {
             0 secs  => u64 ; "Duration::secs"
             1 nanos => u32 ; "Duration::nanos"
         }
-        Ok(core::time::Duration::new(secs, nanos))
+        // `Duration::new` panics if the nanoseconds carry over into seconds that overflow.
+        core::time::Duration::from_secs(secs)
+            .checked_add(core::time::Duration::from_nanos(nanos.into()))
+            .ok_or_else(|| Error::message("duration value overflows"))
     }
 }
 
